@@ -99,8 +99,16 @@ Definition preds_eqb (a b : list (list nat)) : bool := list_eqb (list_eqb Nat.eq
 (* spec_b on an observed outcome: either an error when (and only when) the property demands
    one, or successors exactly per spec and predecessors exactly the inverse edge multiset in
    instruction order *)
+(* x86 control flow by opcode: every J* opcode is a branch, conditional unless it is JMP; RET is
+   terminal (the flags themselves come from the instruction table, C06) *)
+Definition starts_with_J (s : string) : bool := match s with String "J"%char _ => true | _ => false end.
+Definition opcode_flags_ok (i : instr) : bool :=
+  (negb (starts_with_J (opcode i)) || (is_branch i && Bool.eqb (is_conditional i) (negb (String.eqb (opcode i) "JMP"))))
+  && (negb (String.eqb (opcode i) "RET") || is_terminal i).
+
 Inductive cfg_outcome := CfgErr (code : N) | CfgOK (succs : list (list (option nat))) (preds : list (list nat)).
 Definition cfg_spec_b (ns : list node) (o : cfg_outcome) : bool :=
+  forallb opcode_flags_ok (instructions ns) &&
   match o with
   | CfgErr _ => cfg_should_fail ns
   | CfgOK succs preds =>
